@@ -380,10 +380,13 @@ def decide(ck, c, ir, mr, stats, engine="memory"):
         # The decorrelated plan (pushdown-apply-scalar-agg / -group-agg) is predicted exactly: which of its
         # two mechanisms changes the answer?  `both` without the COUNT-of-padded-row reading = `collapse`,
         # without the duplicate-collapse reading = `countbug`.
+        # When each mechanism ALONE already gives the observed rows (e.g. an empty answer either way) the
+        # three readings coincide: both mechanisms are named.
+        alone = variants["both"] == variants["collapse"] == variants["countbug"]
         sigs = []
-        if variants["both"] != variants["collapse"]:
+        if variants["both"] != variants["collapse"] or alone:
             sigs.append("apply-scalar-agg:count-of-padded-row")
-        if variants["both"] != variants["countbug"]:
+        if variants["both"] != variants["countbug"] or alone:
             sigs.append("apply-scalar-agg:duplicate-outer-rows")
         for t in sigs:
             stats["tags"][t] = stats["tags"].get(t, 0) + 1
